@@ -48,7 +48,7 @@ class Run:
         self.pid = mod.ID
         self.tier = tier
         self.seed = seed
-        self.outdir = os.path.join(OUT, self.pid)
+        self.outdir = os.path.join(OUT, self.pid + ("-alt" if common.ALT else ""))
         os.makedirs(self.outdir, exist_ok=True)
         self.proof_alarms = []     # (name, detail)
         self.theorems = []         # (name, [axioms])
@@ -71,20 +71,38 @@ class Run:
         for rel, content in files.items():
             path = os.path.join(LEAN, rel)
             old = open(path).read() if os.path.exists(path) else None
+            if old != content and common.ALT:
+                self.proof_alarms.append(("generated:" + rel, "the file regenerated from %s differs from the committed one (a table, constant or wiring row changed in the source); theorems over it are not re-checked in CV_REPO mode" % common.REPO))
+                continue
             if old != content:
                 os.makedirs(os.path.dirname(path), exist_ok=True)
                 with open(path, "w") as f:
                     f.write(content)
                 self.say("[extract] regenerated %s" % rel)
 
+    def module_closure(self):
+        """Files of this property's theorem modules and driver, with their transitive `Compute.*` imports."""
+        todo = list(self.mod.PROOF_MODULES) + ["Compute.Drv." + self.pid]
+        seen = {}
+        while todo:
+            m = todo.pop()
+            if m in seen:
+                continue
+            path = os.path.join(LEAN, *m.split(".")) + ".lean"
+            if not os.path.exists(path):
+                continue
+            seen[m] = path
+            for mm in re.findall(r"^\s*(?:public\s+)?import\s+(Compute\.[\w.]+)", open(path).read(), re.M):
+                todo.append(mm)
+        return seen
+
     def forbidden_scan(self):
         hits = []
-        for path in glob.glob(os.path.join(LEAN, "Compute", "**", "*.lean"), recursive=True):
+        for path in sorted(self.module_closure().values()):
             src = strip_lean_comments(open(path).read())
             for m in common.FORBIDDEN_RE.finditer(src):
                 line = src.count("\n", 0, m.start()) + 1
                 tok = m.group(0).strip()
-                # `unsafe` is allowed only in AuditMain.lean (outside Compute/); @[extern] opaque is fine
                 hits.append("%s:%d: %s" % (os.path.relpath(path, LEAN), line, tok))
         if hits:
             self.proof_alarms.append(("forbidden-token", "; ".join(hits[:10])))
@@ -147,8 +165,20 @@ class Run:
             if rc != 0:
                 self.proof_alarms.append(("leanchecker", "%s: %s" % (m, out[-400:])))
 
+    def exec_dir(self):
+        if not common.ALT:
+            return EXEC
+        import hashlib
+        d = os.path.join(OUT, "altexec-" + hashlib.sha256(common.REPO.encode()).hexdigest()[:10])
+        os.makedirs(d, exist_ok=True)
+        sh(["rsync", "-a", "--delete", "--exclude", "target", EXEC + "/", d + "/"])
+        ct = open(os.path.join(d, "Cargo.toml")).read().replace('path = "/repo"', 'path = "%s"' % common.REPO)
+        open(os.path.join(d, "Cargo.toml"), "w").write(ct)
+        return d
+
     def cargo_build(self):
-        rc, out = sh(["cargo", "build", "--offline", "--bin", self.mod.BIN], cwd=EXEC, timeout=3600)
+        self.execd = self.exec_dir()
+        rc, out = sh(["cargo", "build", "--offline", "--bin", self.mod.BIN], cwd=self.execd, timeout=3600)
         if rc != 0:
             self.say(out[-3000:])
             self.say("INFRA-ERROR property=%s: executor (and /repo) failed to compile" % self.pid)
@@ -166,7 +196,7 @@ class Run:
         timeout = timeout or getattr(self.mod, "IMPL_TIMEOUT", 600)
         timed_out = False
         try:
-            rc, out = sh([os.path.join(EXEC, "target", "debug", self.mod.BIN), ops, outp], timeout=timeout)
+            rc, out = sh([os.path.join(getattr(self, "execd", EXEC), "target", "debug", self.mod.BIN), ops, outp], timeout=timeout)
         except Exception:
             timed_out = True
             rc = -1
@@ -450,8 +480,9 @@ def main(argv):
         "wall_s": round(time.time() - run.t0, 2),
         "violations": len(violations),
     }
-    os.makedirs(EVID, exist_ok=True)
-    with open(os.path.join(EVID, pid + ".json"), "w") as f:
+    evdir = os.path.join(OUT, "alt-evidence") if common.ALT else EVID
+    os.makedirs(evdir, exist_ok=True)
+    with open(os.path.join(evdir, pid + ".json"), "w") as f:
         json.dump(ev, f, indent=1)
 
     run.say("[%s %s seed=%d] theorems=%d discharged=%d requests=%d compared=%d diffs=%d oracle_failures=%d known=%d wall=%.1fs" % (
